@@ -1485,7 +1485,7 @@ class Interp:
         t = node.target
         if isinstance(t, ast.Name):
             cur = self.lookup(self.mangle(t.id, frame.info.class_name), frame)
-            new = self._aug(type(node.op), cur, self.eval(node.value, frame))
+            new = self._aug(type(node.op), cur, self.eval(node.value, frame), holder=frame.locals)
             self.store_name(self.mangle(t.id, frame.info.class_name), new, frame)
         elif isinstance(t, ast.Attribute):
             obj = self.eval(t.value, frame)
@@ -1503,12 +1503,26 @@ class Interp:
             raise Unsupported('augmented assignment target')
         return None
 
-    def _aug(self, opcls, cur, val):
+    def _aug(self, opcls, cur, val, holder=None):
         if opcls is ast.Add and isinstance(cur, list):
             # list += iterable mutates in place
             if isinstance(val, (SOpt, SChoice)):
                 val = self.resolve(val)
+            if isinstance(val, SList):
+                # a concrete list extended by a sequence of symbolic length: it becomes a (mutable) symbolic
+                # list.  The name is re-bound to the new object, which is only faithful when nothing else
+                # refers to the old list: checked (conservatively) through the garbage collector.
+                if holder is None or not _only_referenced_from(cur, holder):
+                    raise Unsupported('`+=` of a symbolic-length sequence to a concrete list that may be aliased')
+                from . import seqs
+                return seqs.copy(seqs.concat(self, list(cur), val))
             cur.extend(list(self.iterate(val)))
+            return cur
+        if opcls is ast.Add and isinstance(cur, SList) and not cur.immutable:
+            if isinstance(val, (SOpt, SChoice)):
+                val = self.resolve(val)
+            from . import seqs
+            seqs.method(self, cur, 'extend', [val], {})
             return cur
         return self.binop(opcls, cur, val)
 
@@ -1909,6 +1923,20 @@ def _slice_sym(idx):
     if isinstance(idx, slice):
         return any(isinstance(x, Sym) for x in (idx.start, idx.stop, idx.step))
     return isinstance(idx, Sym)
+
+
+def _only_referenced_from(obj, holder):
+    """True iff no container other than the dict `holder` (a frame's locals) refers to `obj`.
+    Interpreter stack frames and function cells do not count (they are temporaries of the engine)."""
+    import gc
+    for r in gc.get_referrers(obj):
+        if r is holder:
+            continue
+        if isinstance(r, types.FrameType) or type(r).__name__ in ('cell',):
+            continue
+        if isinstance(r, (dict, list, tuple, set, frozenset)) or hasattr(r, '__dict__') or hasattr(r, '__slots__'):
+            return False
+    return True
 
 
 def _static_lookup(cls, name):
